@@ -3,7 +3,7 @@
 
 use super::InvertedPartition;
 use crate::scalar::inverted::query::Tokens;
-use std::collections::HashMap;
+use std::collections::{HashMap, HashSet};
 
 // the Scorer trait is used to calculate the score of a token in a document
 // in general, the score is calculated as:
@@ -47,8 +47,13 @@ impl MemBM25Scorer {
     pub fn update(&mut self, tokens: &Tokens) {
         self.total_tokens += tokens.len() as u64;
         self.num_docs += 1;
+        // token_docs is the number of documents containing the token, so a token
+        // that repeats within this document counts once
+        let mut seen = HashSet::new();
         for token in tokens {
-            *self.token_docs.entry(token.clone()).or_insert(0) += 1;
+            if seen.insert(token) {
+                *self.token_docs.entry(token.clone()).or_insert(0) += 1;
+            }
         }
     }
 
